@@ -20,14 +20,14 @@ pub struct Conn {
 }
 const T0: u64 = 1_700_000_000_000;
 
-struct Ends {
-    cip: u8,
-    cport: u16,
-    sip: u8,
-    sport: u16,
-    v6: bool,
+pub struct Ends {
+    pub cip: u8,
+    pub cport: u16,
+    pub sip: u8,
+    pub sport: u16,
+    pub v6: bool,
 }
-fn seg(e: &Ends, from_client: bool, flags: u8, seq: u32, payload: &[u8], ts: Option<u32>) -> Vec<u8> {
+pub fn seg(e: &Ends, from_client: bool, flags: u8, seq: u32, payload: &[u8], ts: Option<u32>) -> Vec<u8> {
     let (src, sport, dst, dport) = if from_client { (e.cip, e.cport, e.sip, e.sport) } else { (e.sip, e.sport, e.cip, e.cport) };
     let mut opts = vec![];
     if flags & SYN != 0 {
@@ -44,10 +44,10 @@ fn seg(e: &Ends, from_client: bool, flags: u8, seq: u32, payload: &[u8], ts: Opt
 fn s(x: &str) -> String {
     x.to_string()
 }
-fn hello_bytes(sni: &str) -> Vec<u8> {
+pub fn hello_bytes(sni: &str) -> Vec<u8> {
     tls::bytes(&Hello { exts: vec![Ext::Sni(s(sni)), Ext::Other(23, vec![]), Ext::Alpn(vec![s("h2")]), Ext::SigAlgs(vec![0x0403, 0x0804]), Ext::SupVer(vec![0x0304, 0x0303])], ..Hello::default() })
 }
-fn h2_request(fields: &[(&str, &str, Rep)], extra_prefix: &[u8], raw_suffix: &[u8]) -> Vec<u8> {
+pub fn h2_request(fields: &[(&str, &str, Rep)], extra_prefix: &[u8], raw_suffix: &[u8]) -> Vec<u8> {
     let mut e = HpackEnc::default();
     let mut b = extra_prefix.to_vec();
     b.extend(e.field(":method", "GET", Rep::Indexed, false, false));
@@ -62,7 +62,7 @@ fn h2_request(fields: &[(&str, &str, Rep)], extra_prefix: &[u8], raw_suffix: &[u
     d.extend(h2::headers_frames(1, &b, &Framing { end_stream: true, ..Default::default() }));
     d
 }
-fn h2_response(fields: &[(&str, &str, Rep)], raw_suffix: &[u8]) -> Vec<u8> {
+pub fn h2_response(fields: &[(&str, &str, Rep)], raw_suffix: &[u8]) -> Vec<u8> {
     let mut e = HpackEnc::default();
     let mut b = vec![];
     b.extend(e.field(":status", "200", Rep::Indexed, false, false));
@@ -76,7 +76,7 @@ fn h2_response(fields: &[(&str, &str, Rep)], raw_suffix: &[u8]) -> Vec<u8> {
 }
 
 /// an HTTP exchange: SYN, SYN+ACK, request in the given segments, response in the given segments
-fn http_conn(name: &str, e: &Ends, req: &[u8], req_cuts: &[usize], resp: &[u8], resp_cuts: &[usize], t: u64) -> Conn {
+pub fn http_conn(name: &str, e: &Ends, req: &[u8], req_cuts: &[usize], resp: &[u8], resp_cuts: &[usize], t: u64) -> Conn {
     let mut pkts = vec![(seg(e, true, SYN, 1000, &[], None), t), (seg(e, false, SYN | ACK, 5000, &[], None), t + 1)];
     let mut prev = 0;
     let mut clock = t + 2;
